@@ -84,6 +84,7 @@ import (
 	"cmp"
 	"context"
 	"crypto/rand"
+	"encoding/hex"
 	"errors"
 	"fmt"
 	"io"
@@ -409,20 +410,41 @@ func (c *fsCache) set(key string, entry []byte) error {
 		}
 	}
 	name := c.fn.FileName(key)
-	if err := c.root.MkdirAll(filepath.Dir(name), 0o755); err != nil {
+	dir := filepath.Dir(name)
+	if err := c.root.MkdirAll(dir, 0o755); err != nil {
 		return err
 	}
-	f, err := c.root.Create(name)
+	// Write to a temporary file in the same directory and rename it into place:
+	// concurrent readers, a failed write or a crash never expose a partial value.
+	var rnd [8]byte
+	if _, err := rand.Read(rnd[:]); err != nil {
+		return err
+	}
+	tmp := filepath.Join(dir, tempFilePrefix+hex.EncodeToString(rnd[:]))
+	f, err := c.root.OpenFile(tmp, os.O_WRONLY|os.O_CREATE|os.O_EXCL, 0o666)
 	if err != nil {
 		return err
 	}
-	defer f.Close()
 	_, err = f.Write(entry)
+	if err == nil {
+		err = f.Sync()
+	}
+	if cerr := f.Close(); err == nil {
+		err = cerr
+	}
+	if err == nil {
+		err = c.root.Rename(tmp, name)
+	}
 	if err != nil {
+		_ = c.root.Remove(tmp)
 		return err
 	}
-	return f.Sync()
+	return nil
 }
+
+// tempFilePrefix starts the names of files being written; base64url names
+// never contain a dot, so they cannot collide with stored keys.
+const tempFilePrefix = ".tmp-"
 
 func (c *fsCache) Delete(key string) error {
 	ctx, cancel := context.WithTimeout(context.Background(), c.timeout)
@@ -493,6 +515,9 @@ func (c *fsCache) keys(prefix string) ([]string, error) {
 		}
 		if d.IsDir() {
 			return nil
+		}
+		if strings.HasPrefix(d.Name(), tempFilePrefix) {
+			return nil // a write in progress (or left behind by a crash)
 		}
 		key, err := c.fnk.KeyFromFileName(
 			strings.TrimPrefix(path, dirname+string(os.PathSeparator)),
